@@ -328,7 +328,19 @@ def run_history(case, env, res, ctx):
                         except TermImageError:
                             pass
                     elif ending == "drop":
-                        pass
+                        # abandoned (a loop left with ``break``): once it is gone, so is the
+                        # file it had opened -- while the image itself lives on
+                        del it
+                        it = None
+                        if not held:
+                            gc.collect()
+                            left = opened.unclosed()
+                            res.count("censuses right after an iterator was abandoned (image alive)")
+                            if left:
+                                errs.append(("image-left-open", "%d image file(s) opened by an abandoned iterator still open while its image is alive: %s" % (len(left), [getattr(i, "filename", "?") for i in left][:3])))
+                                for im in left:
+                                    im.close()
+                            left = None
                     elif ending == "image_first":
                         # the caller keeps the (unfinished) iterator, closes the image first
                         # and the iterator afterwards; it still holds the iterator when the
